@@ -98,7 +98,12 @@ def free_energy_record(rng, b):
         vals[int(rng.integers(0, nvis))] = int(rng.integers(10 ** 9, 2 * 10 ** 9))
     counts.reshape(-1)[idx] = vals
     temp = float(rng.choice([1.0, 300.0, 650.0, 2000.0]))
-    vol = Volume(data=counts.astype(float) if rng.random() < 0.5 else counts, lattice=Lattice.cubic(6.0))
+    # probabilities do not depend on the overall scale of the density: feed integer counts, the same as floats, or multiplied by
+    # an arbitrary positive factor (e.g. a density per cubic Angstrom)
+    form = int(rng.integers(0, 4))
+    scale = [1.0, 1.0, 1e-3, 7.25][form]
+    data_in = counts if form == 0 else counts.astype(float) * scale
+    vol = Volume(data=data_in, lattice=Lattice.cubic(6.0))
     F = vol.get_free_energy(temperature=temp)
     data = np.asarray(F.data, dtype=float)
     kB = physical_constants['Boltzmann constant in eV/K'][0]
@@ -115,7 +120,7 @@ def free_energy_record(rng, b):
     g_1e7 = F.free_energy_graph(max_energy_threshold=1e7)
     return {'b': b, 'act': 'FreeEnergy', 'counts': counts.tolist(), 'finite': bool(np.all(np.isfinite(data))),
             'recovered': rec_list, 'rank': rank.tolist(), 'nodesDefault': [list(map(int, n)) for n in g_def.nodes],
-            'nodes1e7': [list(map(int, n)) for n in g_1e7.nodes], 'meta': {'T': temp, 'dims': dims, 'kind': kind}}
+            'nodes1e7': [list(map(int, n)) for n in g_1e7.nodes], 'meta': {'T': temp, 'dims': dims, 'kind': kind, 'density_scale': scale, 'integer_input': form == 0}}
 
 
 METHODS = [('dijkstra', 'sum'), ('bellman-ford', 'sum'), ('simple', 'simple'), ('dijkstra-exp', 'exp'), ('minmax-energy', 'peak')]
